@@ -13,6 +13,7 @@ import TaskctlVerif.Model.Refs
 import TaskctlVerif.Model.Loader
 import TaskctlVerif.Model.Output
 import TaskctlVerif.Model.Decode
+import TaskctlVerif.Model.Glob
 /-!
 Line-protocol oracle: one case per line on stdin (`<family> <payload>`), one observation per line on
 stdout.  Compiled from exactly the definitions the theorems are about (core Lean only).
@@ -356,6 +357,38 @@ def nativeCase : String :=
       s!"{nm}.stagelist={ty (.tables [])}",
       s!"{nm}.tasks={ty (.dict [])}" ])
 
+/-! ### watchers -/
+
+/-- `glob <pattern> <path>` -/
+def globCase (fields : List String) : String :=
+  toString (Glob.gmatch (Glob.parsePattern (fields.getD 0 "")) (Glob.parsePath (fields.getD 1 "")))
+
+/-- `select inc=p,q exc=-,r tree=a,a/b,…` : the observed paths, sorted -/
+def selectCase (fields : List String) : String :=
+  let pats (k : String) : List (List Glob.PSeg) :=
+    ((splitNonEmpty (kv fields k) ",").filter (· ≠ "-")).map Glob.parsePattern
+  let tree := splitNonEmpty (kv fields "tree") ","
+  let sel := tree.filter fun x =>
+    (pats "inc").any (fun p => Glob.gmatch p (Glob.parsePath x)) && !(pats "exc").any (fun p => Glob.gmatch p (Glob.parsePath x))
+  ",".intercalate (sortStrings sel)
+
+def parseEv (s : String) : Option Glob.EvKind :=
+  if s = "create" then some .create else if s = "write" then some .write else if s = "remove" then some .remove
+  else if s = "rename" then some .rename else if s = "chmod" then some .chmod else none
+
+def evName : Glob.EvKind → String
+  | .create => "create" | .write => "write" | .remove => "remove" | .rename => "rename" | .chmod => "chmod"
+
+/-- `event sub=write+chmod ev=write` -/
+def eventCase (fields : List String) : String :=
+  let subs := ((kv fields "sub").splitOn "+").filterMap parseEv
+  match parseEv (kv fields "ev") with
+  | some k =>
+    match Glob.serve subs [{ kind := k, path := "/some/path.go" }] with
+    | [(k', p)] => s!"fired=true {evName k'} {p}"
+    | _ => "fired=false"
+  | none => "bad-op"
+
 def handle (line0 : String) : String :=
   if line0.startsWith "args " then argsCase ((line0.dropEndWhile (· == '\n')).toString) else
   let line := line0.trimAscii.toString
@@ -378,6 +411,9 @@ def handle (line0 : String) : String :=
   | "impshape" :: rest => impshapeCase rest
   | "prefixed" :: rest => prefixedCase rest
   | "native" :: _ => nativeCase
+  | "glob" :: rest => globCase rest
+  | "select" :: rest => selectCase rest
+  | "event" :: rest => eventCase rest
   | _ => "bad-op"
 
 partial def loop (h : IO.FS.Stream) (out : IO.FS.Stream) : IO Unit := do
